@@ -8,6 +8,7 @@
 typedef struct val {
     int unit, key, seq;
     int dtor_calls;
+    int orphan; /* still stored in its unit when the key was deleted: unreachable from then on, destroyed when the unit is freed */
 } val;
 
 typedef struct ku {
@@ -30,7 +31,7 @@ static struct {
     val V[MAXV];
     int nv;
     volatile int go, remote_done;
-    long gets, sets, remote_sets, dtors, revives;
+    long gets, sets, remote_sets, dtors, revives, churned;
 } S;
 
 static void dtor(void *p)
@@ -51,6 +52,7 @@ static val *newval(int unit, int key)
     v->key = key;
     v->seq = S.nv;
     v->dtor_calls = 0;
+    v->orphan = 0;
     return v;
 }
 
@@ -177,6 +179,48 @@ static void remote_setter(void *arg)
     sim_progress();
 }
 
+/* Keys come and go while units that hold values for them live on ("the user is allowed to
+ * delete a key before terminating all work units that have non-NULL values associated with
+ * key ... the destructor of the deleted key is called when a work unit is freed").  Called by
+ * the primary ULT while no other unit touches a key: the replacement is a new key, so every
+ * unit reads NULL through it, and what was stored under the deleted key is destroyed exactly
+ * once when its unit is freed. */
+static void key_churn(int n)
+{
+    int rounds = plan_range(1, 4);
+    ku *me = &S.U[n];
+    for (int r = 0; r < rounds; r++) {
+        int k = (int)plan_n((uint32_t)S.nk);
+        if (plan_bool()) {
+            /* make sure the calling unit holds a value under the key that is about to go */
+            val *v = newval(n, k);
+            ABT_OK(ABT_key_set(S.keys[k], v));
+            me->last[k] = v;
+        }
+        ABT_OK(ABT_key_free(&S.keys[k]));
+        SIM_CHECK(S.keys[k] == ABT_KEY_NULL, "key:free", "ABT_key_free left the handle set");
+        ABT_OK(ABT_key_create(dtor, &S.keys[k]));
+        for (int i = 0; i <= n; i++) {
+            ku *u = &S.U[i];
+            if (u->last[k]) {
+                u->last[k]->orphan = 1;
+                SIM_CHECK(u->last[k]->dtor_calls == 0, "key:destructor-early", "ABT_key_free ran the destructor of a value that unit %d still holds", i);
+            }
+            u->last[k] = NULL;
+            u->seen_remote[k] = NULL;
+            void *got = (void *)1;
+            if (i == n)
+                ABT_OK(ABT_key_get(S.keys[k], &got));
+            else if (!u->is_task || u->revive)
+                ABT_OK(ABT_thread_get_specific(u->th, S.keys[k], &got));
+            else
+                got = NULL;
+            SIM_CHECK(got == NULL, "key:value-leaked", "key slot %d was deleted and created anew; unit %d reads %p through the new key (a value stored under the deleted key)", k, i, got);
+        }
+        S.churned++;
+    }
+}
+
 static void run_c16(void)
 {
     memset(&S, 0, sizeof S);
@@ -246,6 +290,12 @@ static void run_c16(void)
         sim_thread_join(rstid);
     } else
         ABT_OK(ABT_thread_free(&rsth));
+    if (plan_n(3) == 0) {
+        for (int i = 0; i < n; i++)
+            while (!S.U[i].done)
+                ABT_OK(ABT_thread_yield());
+        key_churn(n);
+    }
     for (int i = 0; i < n; i++) {
         ku *u = &S.U[i];
         /* final read-back of every key from outside, then free: destructors run now */
@@ -281,12 +331,16 @@ static void run_c16(void)
             if (u->last[k])
                 SIM_CHECK(u->last[k]->dtor_calls == 1, "key:destructor-missing", "unit %d key %d: destructor ran %d times for the value still stored when the unit was freed", i,
                           k, u->last[k]->dtor_calls);
+        for (int v = 0; v < S.nv; v++)
+            if (S.V[v].unit == i && S.V[v].orphan)
+                SIM_CHECK(S.V[v].dtor_calls == 1, "key:destructor-missing", "unit %d: destructor ran %d times for value #%d, stored under a key that was deleted before the unit was freed", i,
+                          S.V[v].dtor_calls, S.V[v].seq);
         sim_progress();
     }
     /* every destructor call so far must be for a value that was the last one of a freed unit */
     for (int v = 0; v < S.nv; v++) {
         val *x = &S.V[v];
-        int is_last = S.U[x->unit].last[x->key] == x;
+        int is_last = S.U[x->unit].last[x->key] == x || x->orphan;
         if (x->unit < n)
             SIM_CHECK(x->dtor_calls == (is_last ? 1 : 0), "key:destructor-count", "value #%d of unit %d key %d (%s): destructor ran %d times", x->seq, x->unit, x->key,
                       is_last ? "stored at free" : "overwritten earlier", x->dtor_calls);
@@ -300,7 +354,7 @@ static void run_c16(void)
     for (int v = 0; v < S.nv; v++) {
         val *x = &S.V[v];
         if (x->unit == n) {
-            int is_last = S.U[n].last[x->key] == x;
+            int is_last = S.U[n].last[x->key] == x || x->orphan;
             SIM_CHECK(x->dtor_calls == (is_last ? 1 : 0), "key:destructor-count", "primary ULT key %d value #%d (%s): destructor ran %d times by ABT_finalize", x->key, x->seq,
                       is_last ? "stored" : "overwritten", x->dtor_calls);
         }
@@ -309,5 +363,6 @@ static void run_c16(void)
     sim_count("c16.remote_sets_while_owner_runs", (uint64_t)S.remote_sets);
     sim_count("c16.destructor_calls", (uint64_t)S.dtors);
     sim_count("c16.revives", (uint64_t)S.revives);
+    sim_count("c16.keys_replaced_while_values_live", (uint64_t)S.churned);
 }
 SIM_WORKLOAD("C16", "keys", run_c16, 10)
